@@ -684,6 +684,19 @@ func solveAdaptive(file string, smt string, tmo int, mode string) SolveResult {
 	if st == "error" {
 		res.Output = firstLines(out, 3)
 	}
+	// the other solvers, briefly (cvc5 decides at once many goals on which z3's quantifier instantiation diverges)
+	for _, sc := range solverCmds[1:] {
+		if sc.name == "z3" && strings.Contains(smt, "(_ FloatingPoint") {
+			continue
+		}
+		st2, _, el2 := runOne(sc.name, sc.argv(file, short), short)
+		res.TimeS += el2
+		res.Tried = append(res.Tried, fmt.Sprintf("%s:%s:%.2fs", sc.name, st2, el2))
+		if (st2 == "unsat" || st2 == "sat") && mode == "first" {
+			res.Status, res.Solver = st2, sc.name
+			return res
+		}
+	}
 	// collect merge conditions
 	var conds []string
 	seen := map[string]bool{}
